@@ -13,7 +13,12 @@ func u64s(u uint64) string { return strconv.FormatUint(u, 10) }
 // canonical rendering of a Go `any` the interpreter produced; mirrors Platypus.render.
 // Go dynamic types other than nil/bool/int64/float64/string/[]any/map[string]any are rendered
 // as ?<type> so that a mis-typed value (e.g. a Go int) is visible.
+const renderBudget = 3000
+
+var renderLeft int
+
 func render(v any) string {
+	renderLeft = renderBudget
 	return renderPath(v, nil)
 }
 
@@ -36,6 +41,10 @@ func contID(v any) uintptr {
 }
 
 func renderPath(v any, path []uintptr) string {
+	if renderLeft == 0 {
+		return "~"
+	}
+	renderLeft--
 	switch x := v.(type) {
 	case nil:
 		return "n"
